@@ -16,6 +16,13 @@ class BBProg(NBProg):
         self.nr_synced = 0
         self.nr_own = {r: 0 for r in range(self.np)}
 
+    def pick_form(self, v, st, ct, sd, whole_ok, fam=None):
+        # the whole-variable form takes the extent of a record variable from the calling rank's record count, which
+        # under this driver legitimately lags behind other ranks' logged puts until the next flush
+        if v.isrec and self.nr_synced != self.fm.numrecs:
+            whole_ok = False
+        return super().pick_form(v, st, ct, sd, whole_ok, fam)
+
     def flush_all(self, how=None):
         how = how or self.rng.choice(["flush", "sync", "sync3"])
         self.all_ok(how)
@@ -70,6 +77,38 @@ class BBProg(NBProg):
                     self.nr_own[r] = max(self.nr_own[r], bx[0][0] + (bx[1][0] - 1) * bx[2][0] + 1)
         self.dirty.setdefault(vid, set()).update(allk)
 
+    def bb_indep(self, vid, readback):
+        """enter independent data mode; some ranks put disjoint boxes independently (logged), optionally read their own
+        box back at once (which flushes that rank's log only).  Leaves the file in independent mode."""
+        v = self.fm.vars[vid]
+        boxes = self.decompose(v, self.np) if v.ndims else [([], [], [])] + [None] * (self.np - 1)
+        keysets = []
+        for bx in boxes:
+            keysets.append(set() if bx is None else self._keys(select(*bx) if v.ndims else (), v.ndims))
+        allk = set().union(*keysets)
+        if any(self.pending[r] for r in range(self.np)):
+            self.complete("wait", True, {r: "all" for r in range(self.np)})
+            self.dirty = {}
+            self.synced()
+        if allk & self.dirty.get(vid, set()):
+            self.flush_all()
+        self.begin_indep()
+        for r, bx in enumerate(boxes):
+            if bx is None or self.rng.random() < 0.2:
+                boxes[r] = None
+                continue
+            nel = int(np.prod(bx[1])) if v.ndims else 1
+            self.maxreq = max(self.maxreq, nel * 8)
+            self.one_access("put", r, vid, bx[0], bx[1], bx[2], False, fam="std", mt=self.typed_mem(v))
+            self.own[r].append((vid, bx))
+            if v.isrec and bx[1][0] > 0:
+                self.nr_own[r] = max(self.nr_own[r], bx[0][0] + (bx[1][0] - 1) * bx[2][0] + 1)
+            self.dirty.setdefault(vid, set()).update(keysets[r])
+        for r, bx in enumerate(boxes):
+            if bx is not None and readback and self.rng.random() < 0.8:
+                self.one_access("get", r, vid, bx[0], bx[1], bx[2], False, fam="std")
+        self.feat.add(("indep-episode", bool(readback), sum(1 for b in boxes if b is not None)))
+
     def typed_mem(self, v):
         if v.xtype == 2:
             return "text"
@@ -109,7 +148,12 @@ def gen_program(rng, i, nprocs):
     for step in range(rng.randint(4, 10)):
         k = rng.random()
         vid = rng.randrange(len(p.fm.vars))
-        if k < 0.4:
+        if k < 0.08:
+            p.bb_indep(vid, rng.random() < 0.5)
+            p.end_indep()
+            if rng.random() < 0.5:
+                p.flush_all("sync3")
+        elif k < 0.4:
             p.bb_put(vid)
             # (with requests still pending the count may or may not include them: not asserted)
             if not any(p.pending[r] for r in range(nprocs)) and p.fm.unlimdim() >= 0:
@@ -146,6 +190,18 @@ def gen_program(rng, i, nprocs):
             p.flush_all()
     if any(p.pending[r] for r in range(nprocs)):
         p.complete("wait", True, {r: "all" for r in range(nprocs)})
+    # close in collective mode, in independent mode with logged puts still pending, after they were flushed by a
+    # read-back, or with nothing logged at all: the logs must be gone (or kept) in every case
+    how = rng.random()
+    if how < 0.25:
+        p.bb_indep(rng.randrange(len(p.fm.vars)), rng.random() < 0.6)
+        p.feat.add(("close", "indep"))
+    elif how < 0.35:
+        p.flush_all()
+        p.begin_indep()
+        p.feat.add(("close", "indep-empty-log"))
+    else:
+        p.feat.add(("close", "coll"))
     p.close()
     p.emit("*", "barrier")
     lsline = p.emit(0, "listdir", None, path="s:@OUT@/bb")
@@ -186,7 +242,8 @@ class C12(Check):
             "variables, no element written twice between flushes, executed twice: with the burst-buffer driver (flush-buffer sizes from "
             "'largest request' to unlimited, shared or per-process logs, del_on_close on/off) and with the default driver.  Oracles: data "
             "model on both runs (own writes readable without explicit flush, everything visible to all ranks after wait/flush/sync/redef/"
-            "close, record count right after every logged put), logical dump of the two final files identical, log directory empty after "
+            "close, record count right after every logged put; independent-mode episodes of logged puts with immediate read-back; close in "
+            "collective mode / independent mode with pending, flushed or empty logs), logical dump of the two final files identical, log directory empty after "
             "close unless retention was requested.  distinct = (unlimited?, shared, keep, nprocs) x access tuples")
     assumptions = ["no element is written twice between flushes (documented limitation)", "cancel of logged requests is not exercised (NC_EFLUSHED is documented)"]
 
